@@ -25,6 +25,7 @@ RULE = ("complete grid of generator programs {raise before yield, no yield, yiel
 RULE += (' Also: decorator form (the manager decorating an async function whose body has the outcome), against contextlib.asynccontextmanager used as a decorator.')
 RULE += (' Also: one manager object used as a decorator (twice) and then entered directly.')
 RULE += (' Also: generator functions called with keyword arguments named func/self/args/kwds/gen/cls.')
+RULE += (' Also: generator handlers / clean-ups raising AttributeError, TypeError, KeyError, LookupError, AssertionError, OSError.')
 ASSUMPTIONS = ["contextlib.asynccontextmanager of the running interpreter is the reference",
                "__cause__/__context__ chains and messages are not compared"]
 EXHAUSTIVE = {"quick": True, "thorough": True}
